@@ -86,15 +86,22 @@ def build(run):
 
     # ---- a.3 substituted text cannot create markup ---------------------------------------------------
     vals_in = "(or %s)" % " ".join("(and (= k %s) (= v %s))" % (smt_str(k), smt_str(v)) for k, v in ents.items())
-    safe = '(re.+ (re.union (re.diff re.allchar (re.union (str.to_re "<") (str.to_re "&"))) (re.++ (str.to_re "&#x") (re.+ (re.union (re.range "0" "9") (re.range "A" "F") (re.range "a" "f"))) (str.to_re ";"))))'
+    # substitution happens on the raw document, i.e. also inside quoted attribute values: besides '<' and '&' a raw quote character would end the attribute
+    safe = '(re.+ (re.union (re.diff re.allchar (re.union (str.to_re "<") (str.to_re "&") (str.to_re """") (str.to_re "\'"))) (re.++ (str.to_re "&#x") (re.+ (re.union (re.range "0" "9") (re.range "A" "F") (re.range "a" "f"))) (str.to_re ";"))))'
 
     def w_safe(model):
         k = model["k"]
-        st1, c1 = canon("<math><mtext>a&%s;b</mtext></math>" % k)
-        return ("entity-value-unsafe:" + k, "value %r of &%s; is empty or contains raw markup" % (ents[k], k), {"api": [st1, c1]})
+        # replay: the entity in text and inside a double- and a single-quoted attribute value must behave like its numeric spelling
+        num = numeric(dec(ents[k])) if ents[k] else ""
+        outs = []
+        for tmpl in ("<math><mtext>a%sb</mtext></math>", '<math><mi data-x="a%sb">x</mi></math>', "<math><mi data-x='a%sb'>x</mi></math>"):
+            outs.append((canon(tmpl % ("&%s;" % k)), canon(tmpl % num)))
+        if ents[k] and all(a == b for a, b in outs):
+            return None
+        return ("entity-value-unsafe:" + k, "value %r of &%s; is empty or contains raw markup / a raw quote: named vs numeric spelling differ: %r" % (ents[k], k, [x for x in outs if x[0] != x[1]][:1]), {"api": outs})
     run.smt("Z-C17-a.entity_values_safe",
             "(declare-const k String)(declare-const v String)\n(assert %s)\n(assert (not (str.in_re v %s)))" % (vals_in, safe),
-            get=("k", "v"), witness=w_safe, claim="every table value is non-empty and contains '<' or '&' only as a hex character reference")
+            get=("k", "v"), witness=w_safe, claim="every table value is non-empty and contains '<', '&' and quote characters only as hex character references")
 
     # ---- b.1 the entity regex never fires inside a numeric character reference ---------------------
     numref = '(re.union (re.++ (str.to_re "&#") (re.+ (re.range "0" "9")) (str.to_re ";")) (re.++ (str.to_re "&#x") (re.+ (re.union (re.range "0" "9") (re.range "A" "F") (re.range "a" "f"))) (str.to_re ";")))'
